@@ -50,13 +50,14 @@ package keeper
 //@   modifies pos.has[addr], pos.stakesum
 //@   ensures !pos.has[addr]
 //@   ensures pos.stakesum == old(pos.stakesum) - ite(old(pos.has[addr]) && old(pos.vals[addr]).Status != 0, val(old(pos.vals[addr]).StakedTokens), 0)
-//@ assumed func (k Keeper) SetStakedValidator(ctx sdk.Ctx, validator types.Validator)
-//@   mode value
+// (verified against the value-mode view of the store: /verif/spec/extern/value_types.go.txt)
+//@ func (k Keeper) SetStakedValidator(ctx sdk.Ctx, validator types.Validator)
+//@   props C05 C06 C09
 //@   modifies pos.idx[validator.Address]
 //@   ensures (validator.Jailed || validator.Status != 2) ==> pos.idx[validator.Address] == old(pos.idx[validator.Address])
 //@   ensures !validator.Jailed && validator.Status == 2 ==> pos.idx[validator.Address] == upd(old(pos.idx[validator.Address]), val(validator.StakedTokens) / 1000000, true)
-//@ assumed func (k Keeper) deleteValidatorFromStakingSet(ctx sdk.Ctx, validator types.Validator)
-//@   mode value
+//@ func (k Keeper) deleteValidatorFromStakingSet(ctx sdk.Ctx, validator types.Validator)
+//@   props C05 C06 C09
 //@   modifies pos.idx[validator.Address]
 //@   ensures pos.idx[validator.Address] == upd(old(pos.idx[validator.Address]), val(validator.StakedTokens) / 1000000, false)
 //@ assumed func (k Keeper) SetUnstakingValidator(ctx sdk.Ctx, val types.Validator)
@@ -255,6 +256,7 @@ package keeper
 //@   modifies pos.vals[validator.Address], pos.has[validator.Address], pos.idx[validator.Address], pos.stakesum, pos.queue[validator.UnstakingCompletionTime]
 //@   dead ret1
 //@   ensures [unstaked] err == nil && pos.has[validator.Address] && pos.vals[validator.Address].Status == 0 && val(pos.vals[validator.Address].StakedTokens) == 0
+//@   ensures [rest] pos.vals[validator.Address].Jailed == validator.Jailed && pos.vals[validator.Address].Address == validator.Address && pos.vals[validator.Address].PublicKey == validator.PublicKey
 //@   ensures [burned] amt(auth.supply, pp_denom) == amt(old(auth.supply), pp_denom) - val(validator.StakedTokens) && amt(auth.bal[modaddr("staked_tokens_pool")], pp_denom) == amt(old(auth.bal[modaddr("staked_tokens_pool")]), pp_denom) - val(validator.StakedTokens)
 //@   ensures [backed] amt(auth.bal[modaddr("staked_tokens_pool")], pp_denom) - pos.stakesum == old(amt(auth.bal[modaddr("staked_tokens_pool")], pp_denom) - pos.stakesum)
 //@
@@ -307,6 +309,9 @@ package keeper
 //@          ==> val(pos.vals[address].StakedTokens) == old(val(pos.vals[address].StakedTokens)) - max(min((power * 1000000 * val(slashFactor)) / pow10(18), old(val(pos.vals[address].StakedTokens))), 0) && pos.vals[address].Status == old(pos.vals[address]).Status
 //@   ensures [amount_force] err == nil && old(val(pos.vals[address].StakedTokens)) - max(min((power * 1000000 * val(slashFactor)) / pow10(18), old(val(pos.vals[address].StakedTokens))), 0) < pp_minstake
 //@          ==> val(pos.vals[address].StakedTokens) == 0 && pos.vals[address].Status == 0
+//@   ensures [failed] err != nil ==> pos.vals[address] == old(pos.vals[address]) && pos.has[address] == old(pos.has[address]) && auth.supply == old(auth.supply) && auth.bal[modaddr("staked_tokens_pool")] == old(auth.bal[modaddr("staked_tokens_pool")])
+//@   ensures [jailed] pos.has[address] && old(pos.has[address]) ==> pos.vals[address].Jailed == old(pos.vals[address]).Jailed && pos.vals[address].Address == old(pos.vals[address]).Address && pos.vals[address].PublicKey == old(pos.vals[address]).PublicKey
+//@   ensures [stillbacked] pos.has[address] ==> amt(auth.bal[modaddr("staked_tokens_pool")], pp_denom) >= val(pos.vals[address].StakedTokens)
 //@   ensures [burnt] err == nil ==> amt(old(auth.supply), pp_denom) - amt(auth.supply, pp_denom) == old(val(pos.vals[address].StakedTokens)) - val(pos.vals[address].StakedTokens)
 //@
 // C07/C09: validateDoubleSign accepts evidence only inside the evidence window, against a known,
@@ -315,7 +320,7 @@ package keeper
 //@   props C07 C09
 //@   uses valinv
 //@   requires abs(ctx_time(ctx)) < pow2(62) && abs(timestamp) < pow2(62)
-//@   ensures [accepted] err == nil && validator != nil ==> pos.has[addr] && pos.vals[addr].Status != 0 && pos.sinfohas[addr] && !pos.sinfo[addr].Tombstoned && signInfo == pos.sinfo[addr] && address == addr
+//@   ensures [accepted] err == nil && validator != nil ==> unbox(validator, "x/pos/types.Validator") == pos.vals[addr] && pos.has[addr] && pos.vals[addr].Status != 0 && pos.sinfohas[addr] && !pos.sinfo[addr].Tombstoned && signInfo == pos.sinfo[addr] && address == addr
 //@   ensures [window] err == nil && validator != nil ==> ctx_time(ctx) - timestamp <= pp_max_evidence_age
 //@   ensures [ignored] err == nil && validator == nil ==> ctx_time(ctx) - timestamp > pp_max_evidence_age
 //@
@@ -374,3 +379,20 @@ package keeper
 //@   ensures pos.has[previousProposer] ==> amt(auth.bal[previousProposer], pp_denom) == amt(old(auth.bal[previousProposer]), pp_denom) + amt(old(auth.bal[modaddr("fee_collector")]), pp_denom) && amt(auth.bal[modaddr("pos")], pp_denom) == amt(old(auth.bal[modaddr("pos")]), pp_denom)
 //@   ensures !pos.has[previousProposer] ==> amt(auth.bal[modaddr("pos")], pp_denom) == amt(old(auth.bal[modaddr("pos")]), pp_denom) + amt(old(auth.bal[modaddr("fee_collector")]), pp_denom) && auth.bal[previousProposer] == old(auth.bal[previousProposer])
 //@   ensures auth.supply == old(auth.supply)
+
+// C07/C09: confirmed double-sign evidence (inside the window, known validator that is not unstaked and not
+// tombstoned) burns the offender's whole remaining stake, leaves it Unstaked with 0 tokens, jailed and tombstoned
+// until DoubleSignJailEndTime; evidence older than MaxEvidenceAge changes nothing at all.
+//@ func (k Keeper) handleDoubleSign(ctx sdk.Ctx, addr crypto.Address, infractionHeight int64, timestamp time.Time, power int64)
+//@   props C07 C09
+//@   uses bankinv valinv idxinv queueinv mininv
+//@   requires pp_unstaking_time >= 0 && pp_minstake >= 0 && addr != nil && power >= 0 && 0 <= pp_slash_doublesign && pp_slash_doublesign <= pow10(18)
+//@   requires abs(ctx_time(ctx)) < pow2(62) && abs(timestamp) < pow2(62) && infractionHeight > 0 - 9223372036854775807
+//@   requires modreg("staked_tokens_pool") && modperm("staked_tokens_pool", "burner") && (pos.has[addr] ==> amt(auth.bal[modaddr("staked_tokens_pool")], pp_denom) >= val(pos.vals[addr].StakedTokens))   // C04
+//@   modifies acct.id, acct.next, acct.coins, acct.addr, auth.bal[modaddr("staked_tokens_pool")], auth.has[modaddr("staked_tokens_pool")], auth.supply
+//@   modifies pos.vals[addr], pos.has[addr], pos.idx[addr], pos.stakesum, pos.sinfo[addr], pos.sinfohas[addr], pos.queue[pos.vals[addr].UnstakingCompletionTime]
+//@   ensures [ignored] ctx_time(ctx) - timestamp > pp_max_evidence_age ==> unchanged(pos, auth)
+//@   ensures [punished] ctx_time(ctx) - timestamp <= pp_max_evidence_age ==> pos.has[addr] && pos.vals[addr].Status == 0 && val(pos.vals[addr].StakedTokens) == 0 && pos.vals[addr].Jailed
+//@        && pos.sinfohas[addr] && pos.sinfo[addr].Tombstoned && pos.sinfo[addr].JailedUntil == types.DoubleSignJailEndTime
+//@   ensures [burnt] ctx_time(ctx) - timestamp <= pp_max_evidence_age ==> amt(auth.supply, pp_denom) == amt(old(auth.supply), pp_denom) - old(val(pos.vals[addr].StakedTokens))
+//@   ensures [backed] amt(auth.bal[modaddr("staked_tokens_pool")], pp_denom) - pos.stakesum == old(amt(auth.bal[modaddr("staked_tokens_pool")], pp_denom) - pos.stakesum)
